@@ -12,7 +12,10 @@ import (
 	"os"
 	"sort"
 	"strings"
+	"sync"
 	"testing"
+
+	"k8s.io/apimachinery/pkg/api/resource"
 
 	"github.com/koordinator-sh/koordinator/apis/extension"
 	"github.com/koordinator-sh/koordinator/pkg/zzverif/mc"
@@ -21,6 +24,60 @@ import (
 type c02TreeSys struct {
 	*c01Sys
 	nodes2 bool
+	scale  bool // min-quota scaling enabled (minimums that do not fit their parent are scaled down proportionally)
+	res    *mc.Result
+	lim    *c02Limiter
+	hist   []byte
+}
+
+// c02Limiter bounds the number of violating histories reported per key (the engine re-executes every reported
+// violation several times, serially): the first 8 distinct histories of a key are reported - and reported again when
+// the engine replays them -, the rest is only counted.
+type c02Limiter struct {
+	mu   sync.Mutex
+	seen map[string]map[string]bool
+}
+
+// diagOnce tells whether the history may be reported as a diagnostic of the kind (the first two histories per kind, once).
+func (l *c02Limiter) diagOnce(kind, hist string) bool {
+	l.mu.Lock()
+	defer l.mu.Unlock()
+	if l.seen["diag|"+kind] == nil {
+		l.seen["diag|"+kind] = map[string]bool{}
+	}
+	if l.seen["diag|"+kind][hist] || len(l.seen["diag|"+kind]) >= 2 {
+		return false
+	}
+	l.seen["diag|"+kind][hist] = true
+	return true
+}
+
+func (l *c02Limiter) admit(key, hist string) bool {
+	l.mu.Lock()
+	defer l.mu.Unlock()
+	if l.seen[key] == nil {
+		l.seen[key] = map[string]bool{}
+	}
+	if l.seen[key][hist] {
+		return true
+	}
+	if len(l.seen[key]) >= 8 {
+		return false
+	}
+	l.seen[key][hist] = true
+	return true
+}
+
+func (s *c02TreeSys) Apply(op int, check bool) (bool, []mc.Violation) {
+	en, v := s.c01Sys.Apply(op, check)
+	if en {
+		s.hist = append(s.hist, byte(op))
+	}
+	return en, v
+}
+
+func c02NewGQM(scale bool) *GroupQuotaManager {
+	return NewGroupQuotaManager("", scale, c01RL(c01Vec{c01Huge, c01Huge}), c01RL(c01Vec{c01Huge, c01Huge}))
 }
 
 func (s *c02TreeSys) liveQuotas() []string {
@@ -33,8 +90,23 @@ func (s *c02TreeSys) liveQuotas() []string {
 	return out
 }
 
-func (s *c02TreeSys) freshManager() *GroupQuotaManager {
-	fresh := c01NewGQM()
+// lostAllNodes: no node now, but the manager saw one (its total carries explicit zeros).
+func (s *c02TreeSys) lostAllNodes() bool {
+	return !s.nodes["n1"] && !s.nodes2 && len(s.gqm.totalResource) > 0
+}
+
+func (s *c02TreeSys) freshManager(explicitZeroTotal bool) *GroupQuotaManager {
+	fresh := c02NewGQM(s.scale)
+	if explicitZeroTotal {
+		// Assumption of the scale configurations (spec.json): "no node now" after a node was seen leaves a total of
+		// explicit zeros, a manager that never saw a node has a total without any dimension, and the scaling only looks
+		// at the dimensions the total carries (so the former scales every minimum to 0 and the latter scales nothing).
+		// Whether the cluster ever had a node is therefore part of "the inputs" here; both situations are explored, each
+		// is compared with a fresh manager in the same situation, and how often the two situations settle differently is
+		// measured (counter states_lost_all_nodes_differs_from_never_had_a_node, diagnostics).
+		fresh.OnNodeAdd(c01NodeObj("n1"))
+		fresh.OnNodeDelete(c01NodeObj("n1"))
+	}
 	if s.nodes["n1"] {
 		fresh.OnNodeAdd(c01NodeObj("n1"))
 	}
@@ -76,38 +148,220 @@ func (s *c02TreeSys) freshManager() *GroupQuotaManager {
 
 func c02Node2() *corev1Node { return c01NodeObjCap("n2", c01Vec{3, 5}) }
 
-func (s *c02TreeSys) Invariants() (viol []mc.Violation) {
+// c02Settle refreshes every quota of order, round after round, until a round returns exactly what the previous one
+// returned (then the last round is the fixpoint) or maxRounds rounds were made. With maxRounds == 1 it is the single
+// probe of the configuration without scaling.
+func c02Settle(g *GroupQuotaManager, order []string, maxRounds int) (rounds []map[string]c01Vec, converged bool) {
+	for r := 0; r < maxRounds; r++ {
+		cur := map[string]c01Vec{}
+		for _, qn := range order {
+			cur[qn] = c01FromRL(g.RefreshRuntime(qn))
+		}
+		rounds = append(rounds, cur)
+		if r > 0 {
+			same := true
+			for _, qn := range order {
+				if rounds[r-1][qn] != cur[qn] {
+					same = false
+				}
+			}
+			if same {
+				return rounds, true
+			}
+		}
+	}
+	return rounds, maxRounds == 1
+}
+
+// c02StaleNonLendRequest names the non-lending quotas whose request inside their parent's calculator (the figure the
+// division really uses) is below the request the manager itself reports for them (white-box; only used to LABEL a
+// violation with its root cause, never to raise or to drop one).
+func c02StaleNonLendRequest(g *GroupQuotaManager, live []string) []string {
+	var out []string
+	for _, qn := range live {
+		qi := g.quotaInfoMap[qn]
+		if qi == nil || qi.AllowLentResource {
+			continue
+		}
+		calc := g.runtimeQuotaCalculatorMap[qi.ParentName]
+		if calc == nil {
+			continue
+		}
+		lim := qi.getLimitRequestNoLock()
+		for res, tree := range calc.quotaTree {
+			if ok, n := tree.find(qn); ok && n.request < getQuantityValue(*lim.Name(res, resource.DecimalSI), res) {
+				out = append(out, qn)
+				break
+			}
+		}
+	}
+	return out
+}
+
+const c02MaxRounds = 6
+
+func (s *c02TreeSys) histNames() []string {
+	out := make([]string, len(s.hist))
+	for i, o := range s.hist {
+		out[i] = s.ops[o].name
+	}
+	return out
+}
+
+func (s *c02TreeSys) count(name string) {
+	if s.res != nil {
+		s.res.Count(name, 1)
+	}
+}
+
+func (s *c02TreeSys) Invariants() []mc.Violation {
+	viol := s.invariants()
+	if s.lim == nil {
+		return viol
+	}
+	out := viol[:0]
+	for _, v := range viol {
+		if s.lim.admit(v.Key, string(s.hist)) {
+			out = append(out, v)
+		} else {
+			s.res.Count("violations_beyond_8_histories_per_key_only_counted", 1)
+		}
+	}
+	return out
+}
+
+func (s *c02TreeSys) invariants() (viol []mc.Violation) {
 	if os.Getenv("C02_DEBUG") != "" && strings.HasPrefix(s.last, "refreshRuntime") {
 		defer func() {
 			fmt.Printf("DEBUG hist-end %s viol=%d quotas=%v nodes=%v\n", s.last, len(viol), s.liveQuotas(), s.nodes)
 		}()
 	}
 	after := strings.SplitN(s.last, "(", 2)[0]
-	fresh := s.freshManager()
+	lost := s.scale && s.lostAllNodes()
+	fresh := s.freshManager(lost)
 	live := s.liveQuotas()
-	rt := map[string]c01Vec{}
+	rev := make([]string, 0, len(live))
+	for i := len(live) - 1; i >= 0; i-- {
+		rev = append(rev, live[i])
+	}
+	maxRounds := 1
+	if s.scale {
+		maxRounds = c02MaxRounds
+	}
 	// refresh order must not matter either: probe in reverse alphabetical order on the live manager and in
 	// alphabetical order on the fresh one
-	for i := len(live) - 1; i >= 0; i-- {
-		rt[live[i]] = c01FromRL(s.gqm.RefreshRuntime(live[i]))
-	}
-	for _, qn := range live {
-		want := c01FromRL(fresh.RefreshRuntime(qn))
-		if rt[qn] != want {
-			viol = append(viol, mc.Violation{Key: "C02|tree|differs-from-fresh|after:" + after,
-				What: fmt.Sprintf("[%s] RefreshRuntime(%s) = %v on the incrementally maintained manager but %v on a fresh manager built from the same final objects (cpu milli, memory)", s.cfg.name, qn, rt[qn], want)})
+	lr, lok := c02Settle(s.gqm, rev, maxRounds)
+	fr, fok := c02Settle(fresh, live, maxRounds)
+	rt, want := lr[len(lr)-1], fr[len(fr)-1]
+	stale := map[string]bool{} // see c02StaleNonLendRequest; only labels violations
+	if s.scale {
+		s.res.MaxCounter("max_rounds_to_fixpoint", int64(len(lr)))
+		s.res.MaxCounter("max_rounds_to_fixpoint", int64(len(fr)))
+		if len(lr) > 2 {
+			// Not a violation: the scaled min of a quota is brought up to date only when that quota itself is refreshed, so
+			// after the parent's runtime changed the first refresh of a quota still divides with its siblings' old scaled
+			// minimums; refreshing every quota once more (the quota controller refreshes every leaf quota every 10 s) settles it.
+			s.count("states_first_round_not_yet_fixpoint")
+			if s.lim.diagOnce("transient", string(s.hist)) {
+				s.res.Diag(fmt.Sprintf("transient (not judged): after %v the first round of refreshes returns %v, the fixpoint is %v", s.histNames(), lr[0], rt))
+			}
+		}
+		for who, ok := range map[string]bool{"incrementally maintained": lok, "fresh": fok} {
+			if !ok {
+				viol = append(viol, mc.Violation{Key: "C02|tree|scalemin|no-fixpoint|after:" + after,
+					What: fmt.Sprintf("[%s] refreshing every quota %d rounds on the %s manager never repeated a round: live rounds %v, fresh rounds %v", s.cfg.name, c02MaxRounds, who, lr, fr)})
+			}
+		}
+		for _, qn := range append(c02StaleNonLendRequest(s.gqm, live), c02StaleNonLendRequest(fresh, live)...) {
+			stale[qn] = true
+		}
+		if len(stale) > 0 {
+			s.count("states_with_nonlend_request_not_pushed")
 		}
 	}
-	// property-level clauses per sibling set
-	obs, _ := c01Observe(s.gqm)
+	// affected: the division that produced qn's runtime (its own sibling set or that of an ancestor) contains a
+	// quota from the stale set
+	affected := func(qn string) bool {
+		for q, ok := s.quotas[qn]; ok; q, ok = s.quotas[q.Parent] {
+			for _, sib := range live {
+				if s.quotas[sib].Parent == q.Parent && stale[sib] {
+					return true
+				}
+			}
+		}
+		return false
+	}
+	if lost {
+		s.count("states_lost_all_nodes")
+		nr, _ := c02Settle(s.freshManager(false), live, maxRounds)
+		if never := nr[len(nr)-1]; fmt.Sprint(never) != fmt.Sprint(want) {
+			s.count("states_lost_all_nodes_differs_from_never_had_a_node")
+			if s.lim.diagOnce("lost-all-nodes", string(s.hist)) {
+				s.res.Diag(fmt.Sprintf("assumption (not judged): after %v no node is left; a fresh manager that saw a node come and go settles at %v (every min scaled to the zero total), one that never saw a node at %v (total without dimensions: nothing scaled)", s.histNames(), want, never))
+			}
+		}
+	}
+	for _, qn := range live {
+		if rt[qn] != want[qn] {
+			key := "C02|tree|differs-from-fresh|after:" + after
+			what := fmt.Sprintf("[%s] RefreshRuntime(%s) = %v on the incrementally maintained manager but %v on a fresh manager built from the same final objects (cpu milli, memory)", s.cfg.name, qn, rt[qn], want[qn])
+			if s.scale {
+				what += fmt.Sprintf("; both are fixpoints of refreshing every quota in rounds (live %d rounds: %v; fresh %d rounds: %v)", len(lr), lr, len(fr), fr)
+				if affected(qn) {
+					key = "C02|tree|scalemin|nonlend-request-not-pushed|differs-from-fresh"
+				}
+			}
+			viol = append(viol, mc.Violation{Key: key, What: what})
+		}
+	}
+	if s.scale {
+		// the guaranteed (scaled) minimum the manager reports (QuotaInfoSummary.AutoScaleMin) is part of what the division
+		// derives from the inputs: once settled it must not depend on the history either. This sees a stale scaled min
+		// before a contended total makes it visible in a runtime.
+		for _, qn := range live {
+			ls, ok1 := s.gqm.GetQuotaSummary(qn, false)
+			fs, ok2 := fresh.GetQuotaSummary(qn, false)
+			if !ok1 || !ok2 {
+				continue
+			}
+			s.count("scaled_min_comparisons")
+			if a, b := c01FromRL(ls.AutoScaleMin), c01FromRL(fs.AutoScaleMin); a != b {
+				viol = append(viol, mc.Violation{Key: "C02|tree|scaled-min-differs-from-fresh|after:" + after,
+					What: fmt.Sprintf("[%s] after settling, the scaled min reported for %s is %v on the incrementally maintained manager but %v on a fresh manager built from the same final objects (declared min %v; settled runtimes live %v, fresh %v)", s.cfg.name, qn, a, b, s.quotas[qn].Min.milli(), rt, want)})
+			}
+		}
+	}
+	s.count("fresh_comparisons")
+	viol = append(viol, s.clauses(s.gqm, rt, live, "incrementally maintained", after)...)
+	if s.scale {
+		// the fresh manager is the real code on a legitimate history too (nodes, quotas top-down, pods)
+		viol = append(viol, s.clauses(fresh, want, live, "fresh", after)...)
+	}
+	return viol
+}
+
+// clauses judges the property-level clauses per sibling set on manager g whose (settled) runtimes are rt.
+func (s *c02TreeSys) clauses(g *GroupQuotaManager, rt map[string]c01Vec, live []string, who, after string) (viol []mc.Violation) {
+	key := func(clause string) string { return "C02|tree|" + clause + "|after:" + after }
+	staleHere := map[string]bool{}
+	if s.scale {
+		for _, qn := range c02StaleNonLendRequest(g, live) {
+			staleHere[qn] = true
+		}
+	}
+	obs, _ := c01Observe(g)
 	parents := map[string][]string{}
 	for _, qn := range live {
 		parents[s.quotas[qn].Parent] = append(parents[s.quotas[qn].Parent], qn)
 	}
 	for parent, kids := range parents {
 		var total c01Vec
+		explicit := [2]bool{true, true} // the parent's total carries the dimension explicitly
 		if parent == extension.RootQuotaName {
-			total = c01FromRL(s.gqm.RefreshRuntime(extension.RootQuotaName))
+			rl := g.RefreshRuntime(extension.RootQuotaName)
+			total = c01FromRL(rl)
+			_, explicit[0] = rl["cpu"]
+			_, explicit[1] = rl["memory"]
 		} else if _, ok := s.quotas[parent]; ok {
 			total = rt[parent]
 		} else {
@@ -115,6 +369,13 @@ func (s *c02TreeSys) Invariants() (viol []mc.Violation) {
 		}
 		var sum, sumMin c01Vec
 		unsatisfied := [2]bool{}
+		scalable := true
+		for _, k := range kids {
+			sumMin = sumMin.add(s.quotas[k].Min.milli())
+			if !g.scaleMinQuotaManager.quotaEnableMinQuotaScaleMap[k] {
+				scalable = false
+			}
+		}
 		for _, k := range kids {
 			q := s.quotas[k]
 			req := obs[k].request.min(q.Max.milli()) // the request a quota passes upwards is max-limited
@@ -124,26 +385,75 @@ func (s *c02TreeSys) Invariants() (viol []mc.Violation) {
 				if lo > hi {
 					lo, hi = hi, lo
 				}
-				if rt[k][d] < lo || rt[k][d] > hi {
-					viol = append(viol, mc.Violation{Key: "C02|tree|bounds|after:" + after,
-						What: fmt.Sprintf("[%s] runtime of %s in dimension %d is %d, outside [min(request,min)=%d, max(request,min)=%d]", s.cfg.name, k, d, rt[k][d], lo, hi)})
+				if s.scale && sumMin[d] > total[d] && explicit[d] {
+					// min-quota scaling: minimums that do not fit the parent are reduced proportionally, so the guaranteed
+					// minimum of the statement is the scaled one (floor(total*min/sum of minimums), one unit of slack).
+					// (A total that does not carry the dimension at all - no node was ever seen - is not scaled against:
+					// the plain bounds below apply.)
+					if rt[k][d] > hi {
+						viol = append(viol, mc.Violation{Key: key("bounds"),
+							What: fmt.Sprintf("[%s, %s manager] runtime of %s in dimension %d is %d, above max(request,min)=%d", s.cfg.name, who, k, d, rt[k][d], hi)})
+					}
+					if scalable {
+						scaled := total[d] * min[d] / sumMin[d]
+						if total[d] < 0 {
+							scaled = 0
+						}
+						lo = scaled
+						if req[d] < lo {
+							lo = req[d]
+						}
+						s.count("clause_scaled_lower_bound")
+						if rt[k][d] < lo-1 {
+							viol = append(viol, mc.Violation{Key: key("scaled-lower-bound"),
+								What: fmt.Sprintf("[%s, %s manager] runtime of %s in dimension %d is %d, below min(request=%d, proportionally scaled min=%d) (parent %s has %d, sibling minimums sum to %d)", s.cfg.name, who, k, d, rt[k][d], req[d], scaled, parent, total[d], sumMin[d])})
+						}
+					}
+				} else {
+					s.count("clause_bounds")
+					if rt[k][d] < lo || rt[k][d] > hi {
+						viol = append(viol, mc.Violation{Key: key("bounds"),
+							What: fmt.Sprintf("[%s, %s manager] runtime of %s in dimension %d is %d, outside [min(request,min)=%d, max(request,min)=%d]", s.cfg.name, who, k, d, rt[k][d], lo, hi)})
+					}
 				}
 				if rt[k][d] < req[d] {
 					unsatisfied[d] = true
 				}
 			}
 			sum = sum.add(rt[k])
-			sumMin = sumMin.add(min)
 		}
 		for d := 0; d < 2; d++ {
-			if sumMin[d] <= total[d] && sum[d] > total[d] {
-				viol = append(viol, mc.Violation{Key: "C02|tree|conservation|after:" + after,
-					What: fmt.Sprintf("[%s] children %v of %s get %d in dimension %d, the parent has %d and the minimums (%d) fit", s.cfg.name, kids, parent, sum[d], d, total[d], sumMin[d])})
+			if sumMin[d] <= total[d] {
+				s.count("clause_conservation_minimums_fit")
+				if sum[d] > total[d] {
+					viol = append(viol, mc.Violation{Key: key("conservation"),
+						What: fmt.Sprintf("[%s, %s manager] children %v of %s get %d in dimension %d, the parent has %d and the minimums (%d) fit", s.cfg.name, who, kids, parent, sum[d], d, total[d], sumMin[d])})
+				}
+			} else if s.scale && scalable && explicit[d] {
+				// the scaled minimums fit by construction, so the siblings never get more than the parent has
+				s.count("clause_conservation_minimums_scaled")
+				if sum[d] > total[d] && sum[d] > 0 {
+					viol = append(viol, mc.Violation{Key: key("scaled-conservation"),
+						What: fmt.Sprintf("[%s, %s manager] min-quota scaling is on, yet children %v of %s get %d in dimension %d while the parent has only %d (unscaled minimums sum to %d) - runtimes %v", s.cfg.name, who, kids, parent, sum[d], d, total[d], sumMin[d], rt)})
+				}
+			} else if s.scale {
+				s.count("clause_conservation_not_demanded_minimums_do_not_fit_a_total_without_the_dimension")
+			}
+			if unsatisfied[d] {
+				s.count("clause_work_conservation")
 			}
 			if unsatisfied[d] && sum[d] < total[d] {
 				// every child has a positive shared weight in this alphabet (defaulted from max)
-				viol = append(viol, mc.Violation{Key: "C02|tree|work-conservation|after:" + after,
-					What: fmt.Sprintf("[%s] children %v of %s get %d of %d in dimension %d although one of them is below its request", s.cfg.name, kids, parent, sum[d], total[d], d)})
+				k := key("work-conservation")
+				for _, kid := range kids {
+					if staleHere[kid] {
+						// a too small request inside the calculator can only lower runtimes: it explains idle capacity, never
+						// a broken bound or sum (those keep their plain keys)
+						k = "C02|tree|scalemin|nonlend-request-not-pushed|work-conservation"
+					}
+				}
+				viol = append(viol, mc.Violation{Key: k,
+					What: fmt.Sprintf("[%s, %s manager] children %v of %s get %d of %d in dimension %d although one of them is below its request - runtimes %v", s.cfg.name, who, kids, parent, sum[d], total[d], d, rt)})
 			}
 		}
 	}
@@ -175,6 +485,15 @@ func (s *c02TreeSys) Key() string {
 	return c02TreeDumper.Digest(s.gqm, sb.String())
 }
 
+// c02TreeCfg is one configuration of the tree part.
+type c02TreeCfg struct {
+	part     string
+	scale    bool                  // min-quota scaling (EnableMinQuotaScale, default true in the scheduler configuration)
+	variants map[string][]c01QSpec // quota spec variants (create / update events)
+	setup    []string              // events applied by New before the exploration starts (prebuilt initial state)
+	depth    int
+}
+
 func TestVerifC02Tree(t *testing.T) {
 	env := mc.LoadEnv()
 	root := extension.RootQuotaName
@@ -184,7 +503,32 @@ func TestVerifC02Tree(t *testing.T) {
 		"B": {{"B", "P", false, true, c01Vec{8, 4}, c01Vec{1, 1}}, {"B", "P", false, true, c01Vec{3, 3}, c01Vec{0, 0}}},
 		"C": {{"C", root, false, true, c01Vec{8, 8}, c01Vec{2, 2}}},
 	}
-	cfg := &c01Cfg{name: "tree-refresh", pods: env.Pick(2, 3), groups: []string{"A", "B", "C"}, variants: tree, qnames: []string{"P", "A", "B", "C"}}
+	// the scale configurations additionally let the top-level sibling C hold on to its minimum (non-lending), so that
+	// the parent P gets less than the cluster total without any pod
+	treeScale := map[string][]c01QSpec{"P": tree["P"], "A": tree["A"], "B": tree["B"],
+		"C": {tree["C"][0], {"C", root, false, false, c01Vec{8, 8}, c01Vec{2, 2}}}}
+	name := func(q c01QSpec, vi int) string {
+		return fmt.Sprintf("quota(%s:=v%d{parent=%s,isParent=%v,lend=%v,max=%v,min=%v})", q.Name, vi, q.Parent, q.IsParent, q.Lend, q.Max, q.Min)
+	}
+	cfgs := []c02TreeCfg{
+		{part: "tree-refresh", variants: tree, depth: env.Pick(5, 6)},
+		{part: "tree-refresh-scalemin", scale: true, variants: treeScale, depth: env.Pick(5, 6)},
+		// the whole tree exists, every quota lends, two nodes (13 cpu / 15 memory): exploration of shrinking / growing
+		// totals, requests and min changes around a tree that is in use
+		{part: "tree-refresh-scalemin-prebuilt", scale: true, variants: treeScale, depth: env.Pick(4, 5),
+			setup: []string{"nodeAdd(n1)", "nodeAdd(n2)", name(tree["P"][0], 0), name(tree["A"][0], 0), name(tree["B"][0], 0), name(tree["C"][0], 0)}},
+	}
+	for _, c := range cfgs {
+		if only := os.Getenv("C02_TREE_ONLY"); only != "" && only != c.part {
+			continue
+		}
+		c02RunTree(env, c)
+	}
+}
+
+func c02RunTree(env *mc.Env, tc c02TreeCfg) {
+	part, scale := tc.part, tc.scale
+	cfg := &c01Cfg{name: part, pods: env.Pick(2, 3), groups: []string{"A", "B", "C"}, variants: tc.variants, qnames: []string{"P", "A", "B", "C"}}
 	base := c01BuildOps(cfg)
 	// keep only the events that change what the division depends on (requests, min/max, tree, total)
 	var ops []c01Op
@@ -202,24 +546,51 @@ func TestVerifC02Tree(t *testing.T) {
 			enabled: func(s *c01Sys) bool { _, ok := s.quotas[qn]; return ok && s.last != "refreshRuntime("+qn+")" },
 			apply:   func(s *c01Sys) { s.gqm.RefreshRuntime(qn) }})
 	}
-	nodes2 := map[*c01Sys]*c02TreeSys{}
-	_ = nodes2
-	res := mc.NewResult("C02", "tree-refresh", "bfs")
+	res := mc.NewResult("C02", part, "bfs")
 	res.Rule = fmt.Sprintf("BFS over all sequences of the %d-event alphabet (quota create/update/delete incl. min/max/lend changes, pod add/delete/request change, node add/delete = total change, RefreshRuntime(x) for every quota) on the real GroupQuotaManager; state = deep dump of the manager with version stamps replaced by their staleness booleans", len(ops)+2)
 	res.Assumptions = []string{"quota tree structurally well-formed (webhook); shared weights default to max (positive)"}
+	if scale {
+		res.Rule += fmt.Sprintf("; min-quota scaling ENABLED (the scheduler's default): after every event every quota is refreshed in rounds until a round repeats (at most %d), on the incrementally maintained manager and on a fresh one; the two fixpoints (runtimes and reported scaled minimums) must agree, and each must obey per sibling set: runtime <= max(request,min), runtime >= min(request, min) where the minimums fit resp. >= min(request, proportionally scaled min) where they do not, siblings together <= parent in every dimension (the scaled minimums fit by construction), work conservation", c02MaxRounds)
+		res.Assumptions = append(res.Assumptions, "scaling: a cluster that lost all its nodes (total of explicit zeros) is compared with a fresh manager that saw a node come and go, a cluster that never had a node (total without dimensions, nothing is scaled) with a fresh manager that never saw one")
+	}
+	if len(tc.setup) > 0 {
+		res.Rule += fmt.Sprintf("; initial state = after the fixed prefix %v", tc.setup)
+	}
+	var lim *c02Limiter
+	if scale {
+		lim = &c02Limiter{seen: map[string]map[string]bool{}}
+	}
 	newSys := func() mc.System {
-		s := &c02TreeSys{c01Sys: c01NewSys(cfg, nil)}
+		s := &c02TreeSys{c01Sys: c01NewSys(cfg, nil), scale: scale, res: res, lim: lim}
+		s.gqm = c02NewGQM(scale)
 		all := append([]c01Op{}, ops...)
 		all = append(all,
 			c01Op{name: "nodeAdd(n2)", enabled: func(*c01Sys) bool { return !s.nodes2 }, apply: func(b *c01Sys) { b.gqm.OnNodeAdd(c02Node2()); s.nodes2 = true }},
 			c01Op{name: "nodeDelete(n2)", enabled: func(*c01Sys) bool { return s.nodes2 }, apply: func(b *c01Sys) { b.gqm.OnNodeDelete(c02Node2()); s.nodes2 = false }},
 		)
 		s.ops = all
+		for _, want := range tc.setup {
+			done := false
+			for i, o := range all {
+				if o.name == want {
+					if en, _ := s.Apply(i, false); !en {
+						panic("c02: setup event not enabled: " + want)
+					}
+					done = true
+				}
+			}
+			if !done {
+				panic("c02: setup event not in the alphabet: " + want)
+			}
+		}
+		if len(tc.setup) > 0 {
+			s.last, s.hist = "setup", nil
+		}
 		return s
 	}
 	probe := newSys().(*c02TreeSys)
 	b := &mc.BFS{Res: res, Env: env, New: newSys, NumOps: len(probe.ops),
-		OpName: func(i int) string { return probe.ops[i].name }, MaxDepth: env.Pick(5, 6), Repeats: 1, KeysMustAgree: false}
+		OpName: func(i int) string { return probe.ops[i].name }, MaxDepth: tc.depth, Repeats: 1, KeysMustAgree: false}
 	b.Run()
 	env.Emit(res)
 }
